@@ -6,7 +6,7 @@ V = os.path.dirname(os.path.dirname(os.path.abspath(__file__)))
 # property id -> (technique, level text, level note, design ref)
 CLAIMED = {
  'C03': ('CFG dominance + dispatch-table extraction over the clang AST (resume-state consistency, token carry)',
-         'Static rule check: every suspend point of the incremental JSON number/string automata (all instantiations) restores the label it left and carries the partial token; decided from the resolved AST, no execution. Necessary structural clauses of chunking independence, not the behaviour.',
+         'Static rule check: every suspend point of the incremental JSON number/string automata (all instantiations) restores the label it left and carries the partial token; decided from the resolved AST, no execution. Necessary structural clauses of chunking independence, not the behaviour. Also: short-read agreement of every source read (R03.8) and the cursor-bounds typestate of the JSON scanners (R05.6: no dereference past the chunk end).',
          'Decides clauses R03.*; does not decide event-sequence equality for all inputs. Trusted: clang 14 Sema, the fact plugin, the Python analysers.',
          'DESIGN.md §4 C03'),
  'C10': ('CFG dominance + interprocedural call-site search for nesting-limit guards; exactness of the comparison shape',
@@ -22,7 +22,7 @@ CLAIMED = {
          'Decides the cell tables (which characters are accepted/rejected/dispatched where); does not decide produced values, the UTF-8 validator arithmetic or duplicate handling.',
          'DESIGN.md §4 C02'),
  'C20': ('who-may-do-what scans over the type-checked program (mutable fields, const_cast, statics handed out by non-const reference, deep-const calls through pointer members, per-call state in artifacts) with positive controls',
-         'Static absence check: behind the const API of compiled schemas, JSONPath/JMESPath expressions and basic_json there is no mutable field, no const_cast, no writable static handed out, no non-const call through a pointer member in a const method, and no per-call state stored in the artifact. This is the structural precondition of sharing an immutable artifact across threads; quantifies over all classes and functions of the artifact files and their instantiations.',
+         'Static absence check: behind the const API of compiled schemas, JSONPath/JMESPath expressions and basic_json there is no mutable field, no const_cast, no writable static handed out, no non-const call through a pointer member in a const method, and no per-call state stored in the artifact. This is the structural precondition of sharing an immutable artifact across threads; quantifies over all classes and functions of the artifact files and their instantiations. Also: function-local statics of the artifact files are never written after initialisation (R20.6).',
          'Decides absence of shared writable state; does not decide interleavings or equality of per-thread results. Table exemptions (exception what_ caches; JSONPath null_value static) are listed with reasons and a checked supporting fact.',
          'DESIGN.md §4 C20'),
  'C01': ('partial evaluation of the encoder escape function per character and comparison with the parser un-escape table; structural \\u/surrogate constants; data()/size() pairing lint; parser resume-state rule',
@@ -30,7 +30,7 @@ CLAIMED = {
          'Decides the escape/un-escape agreement and the listed pairing rules; does not decide byte-for-byte canonicity under all options, Grisu3/from_chars or the pretty-printer column arithmetic.',
          'DESIGN.md §4 C01'),
  'C05': ('per-site safety obligations: bounded snprintf lengths (static bound or dominating upper-bound test), regex construction inside converting try/catch, clamped slice steps, value-set analysis of every __builtin_unreachable, margin typestate (must-dataflow) for cursor dereferences in the character scanners and for the state stacks of the expression compilers',
-         'Static per-site obligations over all of include/: every snprintf length is bounded by its buffer, every std::regex built from run-time text is inside a try that converts, every run-time-step slice loop clamps the step, and every __builtin_unreachable is unreachable for every value its discriminant can take (label completeness over the enum, callee return-value enumeration, assigned-value sets, or a table entry whose supporting facts are re-checked); every cursor dereference in the JSON/CSV/JSONPath/JMESPath/JSON Pointer scanners is dominated by an end-pointer comparison that still covers it, and every back()/pop_back() of the JSONPath/JMESPath state stacks by a non-emptiness fact. Quantifies over code sites and paths, not inputs.',
+         'Static per-site obligations over all of include/: every snprintf length is bounded by its buffer, every std::regex built from run-time text is inside a try that converts, every run-time-step slice loop clamps the step, and every __builtin_unreachable is unreachable for every value its discriminant can take (label completeness over the enum, callee return-value enumeration, assigned-value sets, or a table entry whose supporting facts are re-checked); every cursor dereference in the JSON/CSV/JSONPath/JMESPath/JSON Pointer scanners is dominated by an end-pointer comparison that still covers it, and every back()/pop_back() of the JSONPath/JMESPath state stacks by a non-emptiness fact. Quantifies over code sites and paths, not inputs. Also: input-derived element indices are bounds-checked exactly (R05.8).',
          'Decides the listed obligations; does not decide termination, absence of all undefined behaviour or assertion freedom.',
          'DESIGN.md §4 C05'),
  'C06': ('boundary-partition partial evaluation of encoder width ladders; decoding of the written header with the specification tables used for the decoders',
@@ -42,7 +42,7 @@ CLAIMED = {
          'Decides the listed structural clauses; does not decide agreement with a reference model over operation sequences or as<T>() exactness.',
          'DESIGN.md §4 C09'),
  'C19': ('exception-safety typestate over the CFG (destroyed -> re-initialised), dominance of the patch unwinder',
-         'Static typestate: between basic_json::destroy() and the re-initialisation of *this no call that may throw (callee not noexcept) is reachable; apply_patch constructs its automatic-storage unwinder before the first mutation. Quantifies over all paths through the functions, i.e. every allocation point between the two events.',
+         'Static typestate: between basic_json::destroy() and the re-initialisation of *this no call that may throw (callee not noexcept) is reachable; apply_patch constructs its automatic-storage unwinder before the first mutation. Quantifies over all paths through the functions, i.e. every allocation point between the two events. Also: the JSON Patch unwinder rolls back in every state except commit (R15.6).',
          'Decides the listed clauses; does not decide that rollback itself cannot fail, nor byte balance of allocate/deallocate.',
          'DESIGN.md §4 C19'),
  'C14': ('partial evaluation of the escape writers and of the pointer tokenizer into per-character tables; dominance rules for the index grammar test and the bounds rejection; reachability rule error-store-after-mutation',
@@ -50,27 +50,27 @@ CLAIMED = {
          'Decides escape/un-escape agreement, the index grammar and bounds clauses and error-before-mutation (intraprocedural); does not decide that the right location is modified for all documents.',
          'DESIGN.md §4 C14'),
  'C15': ('path rules over the CFG of apply_patch (must-pass-through of the inverse undo entry after every mutation, commit dominance, total dispatch) and of the unwinder',
-         'Static path rules: after every mutating jsonpointer call on the target, every path to the next operation passes exactly the inverse undo entry at the same path with the value read before the mutation; commit is assigned only after the loop and every error return marks abort; an unknown op stores an error; the unwinder replays every op_type in reverse with the matching call. Quantifies over all paths through apply_patch, i.e. every failure point of every operation sequence shape.',
+         'Static path rules: after every mutating jsonpointer call on the target, every path to the next operation passes exactly the inverse undo entry at the same path with the value read before the mutation; commit is assigned only after the loop and every error return marks abort; an unknown op stores an error; the unwinder replays every op_type in reverse with the matching call. Quantifies over all paths through apply_patch, i.e. every failure point of every operation sequence shape. Also: definite_path is evaluated in the state the insertion sees (R15.5), the unwinder rolls back for every state except commit (R15.6, partial evaluation per enumerator), and the jsonpointer operations it relies on have exact bounds and store no error after a mutation (R14.4/R14.5).',
          'Decides the undo-log structure; does not decide that each inverse restores the exact prior state for all documents, nor the from_diff law.',
          'DESIGN.md §4 C15'),
  'C16': ('dominance facts over the CFG of the merge-patch recursion',
-         'Static dominance facts of RFC 7386: insertions are control-dependent on a non-null patch member, an existing member is erased unconditionally in the found branch, a non-object patch is returned and a non-object target is reset before the loop, and the inserted value is the recursive merge of the old value (or an empty object). Necessary conditions of the algorithm on every path of the 40-line recursion.',
+         'Static dominance facts of RFC 7386: insertions are control-dependent on a non-null patch member, an existing member is erased unconditionally in the found branch, a non-object patch is returned and a non-object target is reset before the loop, and the inserted value is the recursive merge of the old value (or an empty object). Necessary conditions of the algorithm on every path of the 40-line recursion. Also from_diff: the three emissions sit under exactly their conditions and are must-pass (R16.5).',
          'Decides the listed dominance facts; does not decide equality with the RFC algorithm for all inputs nor the from_diff law.',
          'DESIGN.md §4 C16'),
  'C18': ('set comparison of the encoder quote-trigger set with the parser special-character set; partial evaluation of the quote escape writers (CSV and TOON, all 256 characters) against the readers un-escape tables; dominance in the parser escaped_value state',
-         'Static set/table agreement for CSV: every character the parser treats specially inside an unquoted field (read from the unquoted_string state) triggers quoting in the encoder, the escape writer and the parser escaped state are inverse. TOON: every character the quoted-string writer emits is read back by the reader escape table (256 characters x 2 writers), and is_unquoted_safe rejects every string the reader would not return unchanged (structural characters, literals, numbers, empty, outer white space). Necessary conditions of the round trips for every string content.',
+         'Static set/table agreement for CSV: every character the parser treats specially inside an unquoted field (read from the unquoted_string state) triggers quoting in the encoder, the escape writer and the parser escaped state are inverse. TOON: every character the quoted-string writer emits is read back by the reader escape table (256 characters x 2 writers), and is_unquoted_safe rejects every string the reader would not return unchanged (structural characters, literals, numbers, empty, outer white space). Necessary conditions of the round trips for every string content. Also: TOON quoting decisions receive the delimiter in force (R18.5); CSV type inference is applied to unquoted fields only (R18.6).',
          'Decides the CSV and TOON quoting/escaping clauses; does not decide table equality after a round trip, type inference, equality of the two TOON number recognisers, nor TOON layout.',
          'DESIGN.md §4 C18'),
  'C17': ('typestate of expected-like results over the CFG; interprocedural size-guard rule for Json index accesses; arity rule for the fixed-size streaming decoder',
-         'Static error-discipline rules over reflect/*.hpp and the expansions of all reflection macro families (driver witness structs): a conversion_result/read_result/expected is dereferenced only under a dominating success test; every j[k] on a Json parameter is under a comparison with j.size() (locally or at every caller of its helper); decode_traits<std::array<T,N>> compares the count with N and requires end_array. Quantifies over all conversion sites, i.e. every malformed shape reaching them.',
+         'Static error-discipline rules over reflect/*.hpp and the expansions of all reflection macro families (driver witness structs): a conversion_result/read_result/expected is dereferenced only under a dominating success test; every j[k] on a Json parameter is under a comparison with j.size() (locally or at every caller of its helper); decode_traits<std::array<T,N>> compares the count with N and requires end_array. Quantifies over all conversion sites, i.e. every malformed shape reaching them. Also: mandatory-member tests of all six N_* macro families hold exactly for positions below N in both routes (R17.2, folded with the class constants of witness types), and the streaming encode route always opens containers with their element count (R17.5).',
          'Decides the listed error-discipline and arity clauses; does not decide inverse-ness or route equality of values.',
          'DESIGN.md §4 C17'),
  'C12': ('pairing rule over selector call sites (path node generated from the index/name that fetches the value); call-graph identity of json_query with compile+evaluate; clamped slice steps',
-         'Static pairing rule: at every tail_select/evaluate_tail call of every selector the path node is generated from the same index or name that fetches the child passed with it; json_query/json_replace go through make_expression + evaluate; slice loops clamp the step. Necessary conditions of "each returned path addresses the value returned with it" and of compiled/one-shot agreement, at all selector sites.',
+         'Static pairing rule: at every tail_select/evaluate_tail call of every selector the path node is generated from the same index or name that fetches the child passed with it; json_query/json_replace go through make_expression + evaluate; slice loops clamp the step. Necessary conditions of "each returned path addresses the value returned with it" and of compiled/one-shot agreement, at all selector sites. Also: the slice step clamp preserves the selection (linear forms over interval boxes, R12.3), json_replace overloads agree on their result options (R12.4), the slice accumulator is reset after use (R12.5), cursor-bounds and state-stack typestates of the compiler (R05.6/R05.7).',
          'Decides the listed structural clauses; does not decide that the selected node list is the one the selector semantics define.',
          'DESIGN.md §4 C12'),
  'C13': ('registry table extraction (name -> object -> class -> arity) compared with the specification table; argument typestate over the CFG; dominance of the step-zero test; type-level const facts from Sema',
-         'Static table agreement and typestate: the 26 built-in names, their classes and arities equal the JMESPath table; args[k] is read only below the declared arity and after the arity test, value()/expression() only under the matching kind test; step 0 is rejected before the slice loops; every entry point takes const Json& and every evaluate returns const Json&.',
+         'Static table agreement and typestate: the 26 built-in names, their classes and arities equal the JMESPath table; args[k] is read only below the declared arity and after the arity test, value()/expression() only under the matching kind test; step 0 is rejected before the slice loops; every entry point takes const Json& and every evaluate returns const Json&. Also: comparator classes apply the operator they are registered for under the number guard (R13.6), slice clamp (R12.3), slice accumulator reset (R12.5), cursor-bounds and state-stack typestates of the compiler (R05.6/R05.7).',
          'Decides the listed structural clauses; does not decide the values returned (projection scoping, truthiness, function results).',
          'DESIGN.md §4 C13'),
  'C04': ('dominance rules with exact constants for every digit-accumulation (MAX/base, MAX-digit, digits10-bounded loops), sign-limit constants of the signed wrappers, control dependence of integer/bignum events on the conversion result',
@@ -78,7 +78,7 @@ CLAIMED = {
          'Decides the overflow-guard and event-kind clauses; does not decide correct rounding of from_chars/strtod, Grisu3 or bigint arithmetic (numerical; no sound static argument in reach here).',
          'DESIGN.md §4 C04'),
  'C08': ('must-pass-through (end_value on every non-error path of every value writer), exact two-sided count comparison at container close, nesting guards and ladder rules shared with C10/C06',
-         'Static path rules over the CBOR, MessagePack and UBJSON encoders: every value-emitting visit_* reaches end_value() unless it stores an error or throws; container closes compare the count with the declared length in both directions with exact operands; length-less opens are rejected where the format has no indefinite containers; every open passes the nesting guard. Necessary conditions of well-formed counted containers for every event sequence.',
+         'Static path rules over the CBOR, MessagePack and UBJSON encoders: every value-emitting visit_* reaches end_value() unless it stores an error or throws; container closes compare the count with the declared length in both directions with exact operands; length-less opens are rejected where the format has no indefinite containers; every open passes the nesting guard. Necessary conditions of well-formed counted containers for every event sequence. Also shared: no raw control character in JSON string literals (R01.1) and CBOR stringref eligibility per the specification ladder (R06.3).',
          'Decides the count-bookkeeping clauses; does not decide that the bytes denote exactly the pushed data in general.',
          'DESIGN.md §4 C08'),
  'C11': ('set comparison of the per-dialect keyword registries with the draft vocabularies; name binding keyword -> factory method -> validator class; use of reporter.error results over the CFG',
